@@ -122,7 +122,7 @@ func c25Pair(c c25Case) *eng.Fail {
 
 func init() {
 	checks["C25"] = eng.Check{
-		Rule: "for rv32ima and rv64ima, per mnemonic: words with every register choice from {x0,x1,x2,x31} (thorough: all 32) in each field x an immediate alphabet, plus ALL 4096 I/S/B immediates, all shift amounts, all 4096 CSR numbers x all 32 uimm/rs1, every aq/rl and fence pred/succ setting, (thorough: all 2^20 U/J immediates; quick every 61st); texts grouped: two words with identical text must have identical lifted effects or, failing that, no valuation on which they differ (witness required). Every text must start with its mnemonic; loads/stores must contain offset(base). Non-trivial = distinct texts seen.",
+		Rule:        "for rv32ima and rv64ima, per mnemonic: words with every register choice from {x0,x1,x2,x31} (thorough: all 32) in each field x an immediate alphabet, plus ALL 4096 I/S/B immediates, all shift amounts, all 4096 CSR numbers x all 32 uimm/rs1, every aq/rl and fence pred/succ setting, (thorough: all 2^20 U/J immediates; quick every 61st); texts grouped: two words with identical text must have identical lifted effects or, failing that, no valuation on which they differ (witness required). Every text must start with its mnemonic; loads/stores must contain offset(base). Non-trivial = distinct texts seen.",
 		Assumptions: []string{"behavioural difference is only reported with a concrete witness state (15 pre-states tried)", "fixed address 0x10000"},
 		Run: func(r *eng.Run) {
 			type job struct {
